@@ -1246,3 +1246,144 @@ Proof.
     eapply Permutation_trans; [exact Habs|]. eapply Permutation_trans; [apply perm_skip; exact Hperm|].
     apply Permutation_cons_append.
 Qed.
+
+Lemma no_ref0 : forall st b, Inv st -> tree_da (m_tree st) b 0 = None.
+Proof.
+  intros st b I. destruct (tree_da (m_tree st) b 0) as [p|] eqn:E; auto. exfalso.
+  destruct (i_sound st I _ _ _ E) as (Hp & Hl & _ & Hr).
+  destruct (i_live st I _ (slot_in st p Hp) Hl) as (_ & _ & _ & _ & Hr1 & _). lia.
+Qed.
+
+Lemma del_step : forall st s t r st' rm s' rs, rel st s ->
+  hdeldd st t r = (st', rm) -> s_step s (ODel t r) = (s', rs) -> rs <> RNoDomain ->
+  rel st' s' /\ rm = rs.
+Proof.
+  intros st s t r st' rm s' rs [I Hperm] Hm Hs Hnd. cbn [s_step] in Hs.
+  destruct (mut_tag t && uint16 r) eqn:Edom;
+    [|cbn [negb] in Hs; apply pair_equal_spec in Hs; destruct Hs as [_ <-]; congruence].
+  cbn [negb] in Hs. apply andb_true_iff in Edom. destruct Edom as [Hmt Hur].
+  destruct (mut_tag_facts t Hmt) as (Hu & B0 & B1 & B108 & T0 & T1 & T108).
+  unfold hdeldd, DFTAG_WILDCARD, DFREF_WILDCARD in Hm. destruct (Z.eqb_spec t 0); [contradiction|]. cbn [orb] in Hm.
+  destruct (Z.eqb_spec r 0) as [->|Hr0].
+  - apply pair_equal_spec in Hs. destruct Hs as [<- <-]. apply pair_equal_spec in Hm. destruct Hm as [<- <-].
+    split; [split; auto|reflexivity].
+  - rewrite htpselect_tree in Hm by auto. rewrite (lookup_agree st s t r I Hperm) in Hs.
+    destruct (tree_da (m_tree st) (BASETAG t) r) as [p|] eqn:Eda.
+    + destruct (entry_key st p t r I Eda) as (Hk & Hp & Hlive).
+      destruct (htpdelete_spec st p I Hp Hlive) as (st2 & Ed & I2 & Hs2 & _). rewrite Ed in Hm.
+      apply pair_equal_spec in Hs. destruct Hs as [<- <-]. apply pair_equal_spec in Hm. destruct Hm as [<- <-].
+      split; [|reflexivity]. split; [exact I2|].
+      destruct (frame_live st s p I Hperm Hp Hlive) as (R & HsR & Hnd' & Hfr).
+      specialize (Hfr _ _ Hs2). unfold optl in Hfr. change (live (mkdd DFTAG_NULL _ _ _)) with false in Hfr.
+      cbn [app] in Hfr. eapply Permutation_trans; [exact Hfr|]. apply Permutation_sym.
+      apply (remove_frame s (entry_of (slot st p)) R t r HsR Hnd' Hk).
+    + apply pair_equal_spec in Hs. destruct Hs as [<- <-]. apply pair_equal_spec in Hm. destruct Hm as [<- <-].
+      split; [split; auto|reflexivity].
+Qed.
+
+Lemma reuse_step : forall st s t r st' rm s' rs, rel st s ->
+  hdreuse st t r = (st', rm) -> s_step s (OReuse t r) = (s', rs) -> rs <> RNoDomain ->
+  rel st' s' /\ rm = rs.
+Proof.
+  intros st s t r st' rm s' rs [I Hperm] Hm Hs Hnd. cbn [s_step] in Hs.
+  destruct (mut_tag t && uint16 r) eqn:Edom;
+    [|cbn [negb] in Hs; apply pair_equal_spec in Hs; destruct Hs as [_ <-]; congruence].
+  cbn [negb] in Hs. apply andb_true_iff in Edom. destruct Edom as [Hmt Hur].
+  destruct (mut_tag_facts t Hmt) as (Hu & B0 & B1 & B108 & T0 & T1 & T108).
+  unfold hdreuse, DFTAG_WILDCARD, DFREF_WILDCARD in Hm. destruct (Z.eqb_spec t 0); [contradiction|]. cbn [orb] in Hm.
+  destruct (Z.eqb_spec r 0) as [->|Hr0].
+  - apply pair_equal_spec in Hs. destruct Hs as [<- <-]. apply pair_equal_spec in Hm. destruct Hm as [<- <-].
+    split; [split; auto|reflexivity].
+  - rewrite htpselect_tree in Hm by auto. rewrite (lookup_agree st s t r I Hperm) in Hs.
+    destruct (tree_da (m_tree st) (BASETAG t) r) as [p|] eqn:Eda.
+    + destruct (entry_key st p t r I Eda) as (Hk & Hp & Hlive).
+      pose proof (i_live st I _ (slot_in st p Hp) Hlive) as Hok.
+      change (is_special_dd (slot st p)) with (is_special (e_tag (entry_of (slot st p)))) in Hm.
+      destruct (is_special (e_tag (entry_of (slot st p)))).
+      { apply pair_equal_spec in Hs. destruct Hs as [_ <-]. congruence. }
+      destruct (htpupdate_spec st p INVALID_OFFSET INVALID_LENGTH I Hp Hlive ltac:(left; auto)) as (I2 & Hs2 & _).
+      apply pair_equal_spec in Hs. destruct Hs as [<- <-]. apply pair_equal_spec in Hm. destruct Hm as [<- <-].
+      split; [|reflexivity]. split; [exact I2|].
+      destruct (frame_live st s p I Hperm Hp Hlive) as (R & HsR & Hnd' & Hfr).
+      specialize (Hfr _ _ Hs2). unfold optl in Hfr. rewrite live_mk in Hfr by (apply (dd_ok_tag _ Hok)).
+      cbn [app] in Hfr. eapply Permutation_trans; [exact Hfr|]. apply Permutation_sym.
+      apply (setlen_frame s (entry_of (slot st p)) R t r INVALID_LENGTH HsR Hnd' Hk).
+    + apply pair_equal_spec in Hs. destruct Hs as [<- <-]. apply pair_equal_spec in Hm. destruct Hm as [<- <-].
+      split; [split; auto|reflexivity].
+Qed.
+
+Lemma htpcreate_ref0 : forall st tag, htpcreate st tag 0 = (st, None).
+Proof. intros. unfold htpcreate, DFREF_WILDCARD. cbn [Z.eqb]. rewrite orb_true_r. reflexivity. Qed.
+
+Lemma special_variant_facts : forall t, uint16 t = true -> MKSPECIALTAG t <> DFTAG_NULL ->
+  uint16 (MKSPECIALTAG t) = true /\ BASETAG (MKSPECIALTAG t) = BASETAG t.
+Proof.
+  intros t Hu Hn. tag_facts_of t Hu. destruct Hf as [[[[[[[[[[_ Hus] _] Hsp] _] _] _] _] _] _] _].
+  split; auto. apply orb_true_iff in Hsp. destruct Hsp as [Hsp|Hsp].
+  - apply Z.eqb_eq in Hsp. contradiction.
+  - repeat rewrite andb_true_iff in Hsp. destruct Hsp as [[Hb _] _]. apply Z.eqb_eq in Hb. exact Hb.
+Qed.
+
+Lemma dup_step : forall st s nt nr ot or_ st' rm s' rs, rel st s ->
+  hdupdd st nt nr ot or_ = (st', rm) -> s_step s (ODup nt nr ot or_) = (s', rs) -> rs <> RNoDomain ->
+  rel st' s' /\ rm = rs.
+Proof.
+  intros st s nt nr ot or_ st' rm s' rs [I Hperm] Hm Hs Hnd. cbn [s_step] in Hs.
+  destruct (mut_tag nt && mut_tag ot && uint16 nr && uint16 or_) eqn:Edom;
+    [|cbn [negb] in Hs; apply pair_equal_spec in Hs; destruct Hs as [_ <-]; congruence].
+  cbn [negb] in Hs. repeat rewrite andb_true_iff in Edom. destruct Edom as [[[Hmn Hmo] Hunr] Huor].
+  destruct (mut_tag_facts nt Hmn) as (Hun & NB0 & NB1 & NB108 & NT0 & NT1 & NT108).
+  destruct (mut_tag_facts ot Hmo) as (Huo & OB0 & OB1 & OB108 & OT0 & OT1 & OT108).
+  assert (Hfail : forall (A B : Prop), (st, RFail) = (st', rm) -> (s, RFail) = (s', rs) -> rel st' s' /\ rm = rs).
+  { intros _ _ E1 E2. apply pair_equal_spec in E1. destruct E1 as [<- <-]. apply pair_equal_spec in E2.
+    destruct E2 as [<- <-]. split; [split; auto|reflexivity]. }
+  unfold hdupdd in Hm. rewrite (lookup_agree st s ot or_ I Hperm) in Hs.
+  destruct (Z.eq_dec or_ 0) as [->|Hor0].
+  - rewrite no_ref0 in Hs by auto. unfold htpselect, DFREF_WILDCARD in Hm. cbn [Z.eqb] in Hm. rewrite orb_true_r in Hm.
+    apply (Hfail True True); auto.
+  - rewrite htpselect_tree in Hm by auto.
+    destruct (tree_da (m_tree st) (BASETAG ot) or_) as [po|] eqn:Eo; [|apply (Hfail True True); auto].
+    destruct (entry_key st po ot or_ I Eo) as (Hko & Hpo & Hlo).
+    pose proof (i_live st I _ (slot_in st po Hpo) Hlo) as Hoko.
+    cbv zeta in Hm. destruct (Z.eqb_spec or_ 0); [contradiction|]. rewrite orb_false_r in Hs.
+    change (is_special_dd (slot st po)) with (is_special (e_tag (entry_of (slot st po)))) in Hm.
+    assert (Hneg : negb (is_special nt) = (SPECIALTAG nt =? 0)) by (unfold is_special; apply negb_involutive).
+    rewrite <- Hneg in Hm. cbv zeta in Hs.
+    set (c := is_special (e_tag (entry_of (slot st po))) && negb (is_special nt)) in *.
+    destruct (Z.eqb_spec nr 0) as [->|Hnr0].
+    { (* new ref 0: HTPcreate rejects it *)
+      rewrite htpcreate_ref0 in Hm. destruct (c && _) in Hm; apply (Hfail True True); auto. }
+    set (tag' := if c then MKSPECIALTAG nt else nt) in *.
+    destruct (Z.eqb_spec tag' DFTAG_NULL) as [Enull|Enn].
+    { (* a user tag has no special variant *)
+      assert (c = true). { destruct c eqn:Ecc; auto; try (exfalso; unfold tag' in Enull; try rewrite Ecc in Enull; unfold DFTAG_NULL in Enull; contradiction). }
+      rewrite H in Hm. cbn [andb] in Hm. apply (Hfail True True); auto. }
+    rewrite andb_false_r in Hm.
+    assert (Htag' : uint16 tag' = true /\ BASETAG tag' = BASETAG nt).
+    { unfold tag' in *. destruct c; [apply special_variant_facts; auto|auto]. }
+    destruct Htag' as (Hut' & Hbt').
+    unfold uint16 in Hunr. apply andb_true_iff in Hunr. destruct Hunr as [Hn0 Hn1]. apply Z.leb_le in Hn0, Hn1.
+    pose proof (htpcreate_spec st tag' nr I Hut' ltac:(rewrite Hbt'; auto) ltac:(rewrite Hbt'; auto)
+                  ltac:(rewrite Hbt'; auto) ltac:(unfold MAX_REF; lia)) as Hc.
+    rewrite (lookup_agree st s nt nr I Hperm) in Hs. rewrite Hbt' in Hc.
+    destruct (tree_da (m_tree st) (BASETAG nt) nr) as [pn0|] eqn:En.
+    { rewrite Hc in Hm. apply (Hfail True True); auto. }
+    destruct Hc as (st1 & pn & Ec & I1 & Hpn & Hslot & Habs & Hpres & Hlen & _). rewrite Ec in Hm.
+    assert (Hold : slot st1 po = slot st po) by (apply Hpres; auto).
+    assert (Hpnlive : live (slot st1 pn) = true).
+    { rewrite Hslot. apply live_mk. exact Enn. }
+    rewrite Hold in Hm.
+    destruct Hoko as (_ & _ & _ & _ & _ & Hol).
+    destruct (htpupdate_spec st1 pn (d_off (slot st po)) (d_len (slot st po)) I1 Hpn Hpnlive Hol) as (I2 & Hs2 & _).
+    apply pair_equal_spec in Hm. destruct Hm as [<- <-]. apply pair_equal_spec in Hs. destruct Hs as [<- <-].
+    split; [|reflexivity]. split; [exact I2|].
+    destruct (frame_at st1 pn Hpn) as (R & H1 & H2). specialize (H2 _ _ Hs2).
+    unfold optl in H1, H2. rewrite Hpnlive in H1. rewrite Hslot in H1, H2. cbn [created d_tag d_ref] in H2.
+    rewrite live_mk in H2 by exact Enn. cbn [app] in H1, H2.
+    unfold entry_of in H1, H2. cbn [created d_tag d_ref d_len] in H1, H2.
+    change (e_len (entry_of (slot st po))) with (d_len (slot st po)).
+    eapply Permutation_trans; [exact H2|]. eapply Permutation_trans; [|apply Permutation_cons_append].
+    apply perm_skip. eapply Permutation_trans; [|exact Hperm].
+    apply (Permutation_cons_inv (a := mkentry tag' nr INVALID_LENGTH)).
+    eapply Permutation_trans; [apply Permutation_sym; exact H1|exact Habs].
+Qed.
